@@ -1,3 +1,311 @@
-(* placeholder: theorems follow *)
-From CC Require Import Model.Circuit.
-Example C10_model_runs : True. Proof. exact I. Qed.
+(* Properties/C10.v — the state-space model is an exact realisation of the circuit.
+   Model: Model/StateSpace.v (state_space_matrices, NodalStateSpaceModel rows, Circuit.state_space_model stacking),
+   generic in the field K of the w = 0 network.  Proofs: Theory/Matrix.v, Theory/StateSpaceThm.v.
+
+   Hypotheses used below:
+     [rlc_dc K n cvals lvals]  the network is the w = 0 image of an R/L/C/ideal-source circuit: well-formed (unique ids, no
+          self-loops, reference node on a branch), the keys of c_values / l_values are unique, every c_values key names an
+          open-circuit branch (capacitor at w = 0), every l_values key a short-circuit branch (inductor at w = 0), every
+          current source is ideal;
+     [forall k < n_states, lam_k <> 0]  no capacitance / inductance is zero (lam = [-C..., L...]);
+     [state_space_matrices K n cvals lvals = Ok m]  the two inversions succeeded (the circuit is non-degenerate).
+   out_potential / out_voltage / out_current m id x u  =  (c_row_* id) . x + (d_row_* id) . u  with the model's own rows. *)
+From Coq Require Import List Bool ZArith NArith QArith Qcanon.
+From CC Require Import Theory.Field Theory.Complex Model.Network Model.StateSpace Model.Circuit Theory.Spec Theory.Api
+  Theory.Matrix Theory.StateSpaceThm Theory.StateSpacePhasor.
+Import ListNotations.
+Local Open Scope nat_scope.
+
+(* C10 "state dimension = #capacitors + #inductors": A is n x n, B n x #inputs, C (N+M) x n, D (N+M) x #inputs with
+   n = len(c_values) + len(l_values) and #inputs = len(sources) *)
+Theorem C10_dim : forall (K : fops) (KOK : fops_ok K) (n : network K) (cvals lvals : list (label * K)),
+  (forall k, k < ss_nst K cvals lvals -> nth k (lam K cvals lvals) (f0 K) <> f0 K) ->
+  rlc_dc K n cvals lvals ->
+  forall m : ssm K, state_space_matrices K n cvals lvals = Ok m ->
+  wfm (ss_nst K cvals lvals) (ss_nst K cvals lvals) (ss_A m) /\
+  wfm (ss_nst K cvals lvals) (ss_nS K n lvals) (ss_B m) /\
+  wfm (ss_dim K n) (ss_nst K cvals lvals) (ss_C m) /\
+  wfm (ss_dim K n) (ss_nS K n lvals) (ss_D m) /\
+  ss_nst K cvals lvals = (length cvals + length lvals)%nat /\ ss_nS K n lvals = length (sources K n lvals).
+Proof. exact ss_dims. Qed.
+Print Assumptions C10_dim.
+
+(* C10 "the input columns follow the model's own published source order": sources = sorted current sources ++ sorted
+   ideal voltage sources that are not inductors; B = BX * QS and D = DX * QS where column k of QS is the incidence
+   column of sources[k] (current source: -1 at its first node, +1 at its second; voltage source: the unit vector of
+   its own row). *)
+Theorem C10_sources_order : forall (K : fops) (KOK : fops_ok K) (n : network K) (cvals lvals : list (label * K)),
+  (forall k, k < ss_nst K cvals lvals -> nth k (lam K cvals lvals) (f0 K) <> f0 K) ->
+  rlc_dc K n cvals lvals ->
+  forall m : ssm K, state_space_matrices K n cvals lvals = Ok m ->
+  sources K n lvals = cs_index n ++ filter (fun v => negb (lmem v (lkeys K lvals))) (vs_index n)
+  /\ ss_nS K n lvals = length (sources K n lvals)
+  /\ (forall k, k < ss_nS K n lvals -> In (nth k (sources K n lvals) []) (cs_index n) ->
+        col (QS K n lvals) k = map (fun i => Qent n i (nth k (sources K n lvals) [])) (node_index n)
+                               ++ map (fun _ => f0 K) (vs_index n))
+  /\ (forall k, k < ss_nS K n lvals -> In (nth k (sources K n lvals) []) (vs_index n) ->
+        col (QS K n lvals) k = map (fun _ => f0 K) (node_index n)
+                               ++ unit_vec (ss_M K n) (lindex (vs_index n) (nth k (sources K n lvals) [])))
+  /\ exists BX DX, wfm (ss_nst K cvals lvals) (ss_dim K n) BX /\ wfm (ss_dim K n) (ss_dim K n) DX
+       /\ ss_B m = mat_mul (ss_nS K n lvals) BX (QS K n lvals) /\ ss_D m = mat_mul (ss_nS K n lvals) DX (QS K n lvals).
+Proof. exact sources_order. Qed.
+Print Assumptions C10_sources_order.
+
+(* key lemma, matrices:  A_tilde C = DQ Lambda A,  A_tilde D = DQ Lambda B + QS,  DQ^T C = I,  DQ^T D = 0
+   (A_tilde = MNA matrix of the w = 0 network, DQ = [Delta^T | QL], Lambda = diag(-C..., L...)); needs no hypothesis
+   on the network at all *)
+Theorem C10_augmented_matrices : forall (K : fops) (KOK : fops_ok K) (n : network K) (cvals lvals : list (label * K)),
+  (forall k, k < ss_nst K cvals lvals -> nth k (lam K cvals lvals) (f0 K) <> f0 K) ->
+  forall m : ssm K, state_space_matrices K n cvals lvals = Ok m ->
+  wfm (ss_nst K cvals lvals) (ss_nst K cvals lvals) (ss_A m) /\
+  wfm (ss_nst K cvals lvals) (ss_nS K n lvals) (ss_B m) /\
+  wfm (ss_dim K n) (ss_nst K cvals lvals) (ss_C m) /\
+  wfm (ss_dim K n) (ss_nS K n lvals) (ss_D m) /\
+  mat_mul (ss_nst K cvals lvals) (Pm K n) (ss_C m)
+    = mat_mul (ss_nst K cvals lvals) (DQm K n cvals lvals) (mat_mul (ss_nst K cvals lvals) (Lambda K cvals lvals) (ss_A m)) /\
+  mat_mul (ss_nS K n lvals) (Pm K n) (ss_D m)
+    = mat_add (mat_mul (ss_nS K n lvals) (DQm K n cvals lvals) (mat_mul (ss_nS K n lvals) (Lambda K cvals lvals) (ss_B m)))
+              (QS K n lvals) /\
+  mat_mul (ss_nst K cvals lvals) (DQt K n cvals lvals) (ss_C m) = ident (ss_nst K cvals lvals) /\
+  mat_mul (ss_nS K n lvals) (DQt K n cvals lvals) (ss_D m) = zero_mat (ss_nst K cvals lvals) (ss_nS K n lvals).
+Proof. exact ss_augmented_mat. Qed.
+Print Assumptions C10_augmented_matrices.
+
+(* key lemma, vectors: z = C x + D u and w = Lambda (A x + B u) satisfy  A_tilde z = DQ w + QS u  and  DQ^T z = x *)
+Theorem C10_augmented : forall (K : fops) (KOK : fops_ok K) (n : network K) (cvals lvals : list (label * K)),
+  (forall k, k < ss_nst K cvals lvals -> nth k (lam K cvals lvals) (f0 K) <> f0 K) ->
+  forall (m : ssm K) (x u : list K), state_space_matrices K n cvals lvals = Ok m ->
+  length x = ss_nst K cvals lvals -> length u = ss_nS K n lvals ->
+  length (ss_z K m x u) = ss_dim K n /\
+  length (ss_xdot K m x u) = ss_nst K cvals lvals /\
+  length (ss_w K cvals lvals m x u) = ss_nst K cvals lvals /\
+  mat_vec (Pm K n) (ss_z K m x u)
+    = vadd (mat_vec (DQm K n cvals lvals) (ss_w K cvals lvals m x u)) (mat_vec (QS K n lvals) u) /\
+  mat_vec (DQt K n cvals lvals) (ss_z K m x u) = x.
+Proof. exact ss_augmented. Qed.
+Print Assumptions C10_augmented.
+
+(* C10 "the states are the capacitor voltages and inductor currents": for every state x and input u, the model's own
+   voltage row of capacitor k returns x_k, its own current row of inductor k returns x_(nC + k) *)
+Theorem C10_states_capacitor : forall (K : fops) (KOK : fops_ok K) (n : network K) (cvals lvals : list (label * K)),
+  (forall k, k < ss_nst K cvals lvals -> nth k (lam K cvals lvals) (f0 K) <> f0 K) ->
+  rlc_dc K n cvals lvals ->
+  forall m : ssm K, state_space_matrices K n cvals lvals = Ok m ->
+  forall x u : list K, length x = ss_nst K cvals lvals -> length u = ss_nS K n lvals ->
+  forall b : branch K, In b (branches n) -> lmem (bid b) (ckeys K cvals) = true ->
+  out_voltage K n cvals lvals m (bid b) x u = Ok (nth (lindex (ckeys K cvals) (bid b)) x (f0 K)).
+Proof. exact state_cap. Qed.
+Theorem C10_states_inductor : forall (K : fops) (KOK : fops_ok K) (n : network K) (cvals lvals : list (label * K)),
+  (forall k, k < ss_nst K cvals lvals -> nth k (lam K cvals lvals) (f0 K) <> f0 K) ->
+  rlc_dc K n cvals lvals ->
+  forall m : ssm K, state_space_matrices K n cvals lvals = Ok m ->
+  forall x u : list K, length x = ss_nst K cvals lvals -> length u = ss_nS K n lvals ->
+  forall b : branch K, In b (branches n) -> lmem (bid b) (lkeys K lvals) = true ->
+  out_current K n cvals lvals m (bid b) x u = Ok (nth (ss_nC K cvals + lindex (lkeys K lvals) (bid b)) x (f0 K)).
+Proof. exact state_ind. Qed.
+Print Assumptions C10_states_capacitor.
+Print Assumptions C10_states_inductor.
+
+(* C10 "transfer function = phasor response": in any field K containing the element values and s (K = Cx R, s = jw
+   for the frequency response), whenever s x = A x + B u — i.e. x = (sI - A)^-1 B u when that inverse exists, so that
+   C x + D u = (C (sI - A)^-1 B + D) u — the model's outputs for (x, u) are potentials phi and branch currents j with:
+   phi(reference) = 0; Kirchhoff's current law at every node; capacitor i = (s C) v; inductor v = (s L) i; every ideal
+   voltage source stands under its input, every current source carries its input (u indexed by [sources]); every other
+   branch i = Y v.  These are the phasor circuit equations at s with the source amplitudes u. *)
+Theorem C10_transfer : forall (K : fops) (KOK : fops_ok K) (n : network K) (cvals lvals : list (label * K)),
+  (forall k, k < ss_nst K cvals lvals -> nth k (lam K cvals lvals) (f0 K) <> f0 K) ->
+  rlc_dc K n cvals lvals ->
+  forall m : ssm K, state_space_matrices K n cvals lvals = Ok m ->
+  forall x u : list K, length x = ss_nst K cvals lvals -> length u = ss_nS K n lvals ->
+  forall s : K,
+  (forall k, k < ss_nst K cvals lvals -> nth k (ss_xdot K m x u) (f0 K) = fmul K s (nth k x (f0 K))) ->
+  exists (phi : label -> K) (j : branch K -> K),
+     (forall node, node = zero n \/ In node (node_index n) -> out_potential K n cvals lvals m node x u = Ok (phi node))
+  /\ (forall b, In b (branches n) ->
+        out_voltage K n cvals lvals m (bid b) x u = Ok (bvolt phi b) /\ out_current K n cvals lvals m (bid b) x u = Ok (j b))
+  /\ phi (zero n) = f0 K
+  /\ (forall node, kcl_sum (branches n) j node = f0 K)
+  /\ (forall b, In b (branches n) -> lmem (bid b) (ckeys K cvals) = true ->
+        j b = fmul K (fmul K s (vlookup K cvals (bid b))) (bvolt phi b))
+  /\ (forall b, In b (branches n) -> lmem (bid b) (lkeys K lvals) = true ->
+        bvolt phi b = fmul K (fmul K s (vlookup K lvals (bid b))) (j b))
+  /\ (forall b, In b (branches n) -> is_ideal_voltage_source (el b) = true -> lmem (bid b) (lkeys K lvals) = false ->
+        bvolt phi b = nth (lindex (sources K n lvals) (bid b)) u (f0 K))
+  /\ (forall b, In b (branches n) -> is_current_source (el b) = true ->
+        j b = nth (lindex (sources K n lvals) (bid b)) u (f0 K))
+  /\ (forall b, In b (branches n) -> lmem (bid b) (ckeys K cvals) = false -> is_ideal_voltage_source (el b) = false ->
+        is_current_source (el b) = false -> j b = fmul K (finY b) (bvolt phi b)).
+Proof. exact ss_phasor. Qed.
+Print Assumptions C10_transfer.
+
+(* C10 "transfer function = phasor response of the same circuit", against the network the library analyses at s:
+   [pnet K n cvals lvals s u] = capacitor -> admittance s C, inductor -> impedance s L, ideal sources with amplitudes u
+   (Theory/StateSpacePhasor.v).  If s x = A x + B u, the outputs C x + D u solve its circuit equations ... *)
+Theorem C10_transfer_phasor_network : forall (K : fops) (KOK : fops_ok K) (n : network K) (cvals lvals : list (label * K))
+  (s : K) (u : list K),
+  (forall k, k < ss_nst K cvals lvals -> nth k (lam K cvals lvals) (f0 K) <> f0 K) ->
+  rlc_dc K n cvals lvals ->
+  forall m : ssm K, state_space_matrices K n cvals lvals = Ok m ->
+  forall x : list K, length x = ss_nst K cvals lvals -> length u = ss_nS K n lvals ->
+  (forall k, k < ss_nst K cvals lvals -> nth k (ss_xdot K m x u) (f0 K) = fmul K s (nth k x (f0 K))) ->
+  exists (phi : label -> K) (j : branch K -> K),
+    CircuitSpec (pnet K n cvals lvals s u) phi j
+    /\ (forall node, In node (node_labels (pnet K n cvals lvals s u)) ->
+          out_potential K n cvals lvals m node x u = Ok (phi node))
+    /\ (forall b, In b (branches n) ->
+          out_voltage K n cvals lvals m (bid b) x u = Ok (bvolt phi (pbranch K n cvals lvals s u b))
+          /\ out_current K n cvals lvals m (bid b) x u = Ok (j (pbranch K n cvals lvals s u b))).
+Proof. exact ss_phasor_spec. Qed.
+Print Assumptions C10_transfer_phasor_network.
+
+(* ... hence, when that network is well-posed (unique solution), they are THE phasor response: every solution of its
+   circuit equations has these potentials, voltages and currents ... *)
+Theorem C10_transfer_is_phasor_response : forall (K : fops) (KOK : fops_ok K) (n : network K)
+  (cvals lvals : list (label * K)) (s : K) (u : list K),
+  (forall k, k < ss_nst K cvals lvals -> nth k (lam K cvals lvals) (f0 K) <> f0 K) ->
+  rlc_dc K n cvals lvals ->
+  forall m : ssm K, state_space_matrices K n cvals lvals = Ok m ->
+  forall x : list K, length x = ss_nst K cvals lvals -> length u = ss_nS K n lvals ->
+  (forall k, k < ss_nst K cvals lvals -> nth k (ss_xdot K m x u) (f0 K) = fmul K s (nth k x (f0 K))) ->
+  WellPosed (pnet K n cvals lvals s u) ->
+  forall (phi' : label -> K) (j'' : branch K -> K), CircuitSpec (pnet K n cvals lvals s u) phi' j'' ->
+     (forall node, In node (node_labels (pnet K n cvals lvals s u)) ->
+        out_potential K n cvals lvals m node x u = Ok (phi' node))
+  /\ (forall b, In b (branches n) ->
+        out_voltage K n cvals lvals m (bid b) x u = Ok (bvolt phi' (pbranch K n cvals lvals s u b))
+        /\ out_current K n cvals lvals m (bid b) x u = Ok (j'' (pbranch K n cvals lvals s u b))).
+Proof. exact ss_phasor_unique. Qed.
+Print Assumptions C10_transfer_is_phasor_response.
+
+(* ... and they are what the library's own nodal solver returns for that network *)
+Theorem C10_transfer_is_solver_answer : forall (K : fops) (KOK : fops_ok K) (n : network K)
+  (cvals lvals : list (label * K)) (s : K) (u : list K),
+  (forall k, k < ss_nst K cvals lvals -> nth k (lam K cvals lvals) (f0 K) <> f0 K) ->
+  rlc_dc K n cvals lvals ->
+  forall m : ssm K, state_space_matrices K n cvals lvals = Ok m ->
+  forall x : list K, length x = ss_nst K cvals lvals -> length u = ss_nS K n lvals ->
+  (forall k, k < ss_nst K cvals lvals -> nth k (ss_xdot K m x u) (f0 K) = fmul K s (nth k x (f0 K))) ->
+  forall sol : solution K, solve_network (pnet K n cvals lvals s u) = Ok sol ->
+     (forall node, In node (node_labels (pnet K n cvals lvals s u)) ->
+        out_potential K n cvals lvals m node x u = get_potential sol node)
+  /\ (forall b, In b (branches n) -> out_voltage K n cvals lvals m (bid b) x u = get_voltage sol (bid b)).
+Proof. exact ss_phasor_solver. Qed.
+Print Assumptions C10_transfer_is_solver_answer.
+
+(* C10 "in particular its DC gain equals the DC solution": a stationary state A x + B u = 0 (x = -A^-1 B u) gives
+   outputs that solve the DC circuit: capacitors carry no current, inductors stand under no voltage *)
+Theorem C10_dc_gain : forall (K : fops) (KOK : fops_ok K) (n : network K) (cvals lvals : list (label * K)),
+  (forall k, k < ss_nst K cvals lvals -> nth k (lam K cvals lvals) (f0 K) <> f0 K) ->
+  rlc_dc K n cvals lvals ->
+  forall m : ssm K, state_space_matrices K n cvals lvals = Ok m ->
+  forall x u : list K, length x = ss_nst K cvals lvals -> length u = ss_nS K n lvals ->
+  (forall k, k < ss_nst K cvals lvals -> nth k (ss_xdot K m x u) (f0 K) = f0 K) ->
+  exists (phi : label -> K) (j : branch K -> K),
+     (forall node, node = zero n \/ In node (node_index n) -> out_potential K n cvals lvals m node x u = Ok (phi node))
+  /\ (forall b, In b (branches n) ->
+        out_voltage K n cvals lvals m (bid b) x u = Ok (bvolt phi b) /\ out_current K n cvals lvals m (bid b) x u = Ok (j b))
+  /\ phi (zero n) = f0 K
+  /\ (forall node, kcl_sum (branches n) j node = f0 K)
+  /\ (forall b, In b (branches n) -> lmem (bid b) (ckeys K cvals) = true -> j b = f0 K)
+  /\ (forall b, In b (branches n) -> lmem (bid b) (lkeys K lvals) = true -> bvolt phi b = f0 K)
+  /\ (forall b, In b (branches n) -> is_ideal_voltage_source (el b) = true -> lmem (bid b) (lkeys K lvals) = false ->
+        bvolt phi b = nth (lindex (sources K n lvals) (bid b)) u (f0 K))
+  /\ (forall b, In b (branches n) -> is_current_source (el b) = true ->
+        j b = nth (lindex (sources K n lvals) (bid b)) u (f0 K))
+  /\ (forall b, In b (branches n) -> lmem (bid b) (ckeys K cvals) = false -> is_ideal_voltage_source (el b) = false ->
+        is_current_source (el b) = false -> j b = fmul K (finY b) (bvolt phi b)).
+Proof. exact ss_dc_gain. Qed.
+Print Assumptions C10_dc_gain.
+
+From Coq Require Import String.
+Local Open Scope string_scope.
+(* ---- non-vacuity: an RLC circuit whose two inductors are listed non-alphabetically (Lb before La) and whose current
+   source M1 sorts after both inductors and before the voltage source Vs — the situation of the repaired defect
+   (columns selected with indices of a merged sort) ---- *)
+Definition q (a : Z) (b : positive) : Qcops := qc a b.
+Definition ex_net : network Qcops :=
+  {| zero := lbl "0";
+     branches := [ Build_branch (lbl "2") (lbl "3") (impedance (lbl "Lb") (q 0 1));
+                   Build_branch (lbl "1") (lbl "2") (resistor (lbl "R1") (q 2 1));
+                   Build_branch (lbl "0") (lbl "3") (current_source (lbl "M1") (q 1 1) (q 0 1));
+                   Build_branch (lbl "2") (lbl "0") (impedance (lbl "La") (q 0 1));
+                   Build_branch (lbl "3") (lbl "0") (admittance (lbl "C1") (q 0 1));
+                   Build_branch (lbl "3") (lbl "0") (resistor (lbl "R2") (q 5 1));
+                   Build_branch (lbl "1") (lbl "0") (voltage_source (lbl "Vs") (q 1 1) (q 0 1)) ] |}.
+Definition ex_c : list (label * Qcops) := [(lbl "C1", q 1 2)].
+Definition ex_l : list (label * Qcops) := [(lbl "Lb", q 2 1); (lbl "La", q 3 1)].
+
+Example C10_example_hyp : rlc_dcb ex_net ex_c ex_l = true /\ lam_nzb ex_c ex_l = true.
+Proof. vm_compute. split; reflexivity. Qed.
+Example C10_example_rlc : rlc_dc Qcops ex_net ex_c ex_l.
+Proof. exact (rlc_dcb_ok ex_net ex_c ex_l (proj1 C10_example_hyp)). Qed.
+Example C10_example_sources : sources Qcops ex_net ex_l = [lbl "M1"; lbl "Vs"]
+  /\ vs_index ex_net = [lbl "La"; lbl "Lb"; lbl "Vs"] /\ lkeys Qcops ex_l = [lbl "Lb"; lbl "La"].
+Proof. vm_compute. repeat split; reflexivity. Qed.
+(* states (v_C1, i_Lb, i_La), inputs (M1, Vs):
+   C1 v' = i_Lb - v/R2 + M1;  Lb i_Lb' = (Vs - R1 (i_La + i_Lb)) - v;  La i_La' = Vs - R1 (i_La + i_Lb) *)
+Example C10_example_runs :
+  match state_space_matrices Qcops ex_net ex_c ex_l with
+  | Ok m => mat_eqb (ss_A m) [[q (-2) 5; q 2 1; q 0 1]; [q (-1) 2; q (-1) 1; q (-1) 1]; [q 0 1; q (-2) 3; q (-2) 3]]
+            && mat_eqb (ss_B m) [[q 2 1; q 0 1]; [q 0 1; q 1 2]; [q 0 1; q 1 3]]
+  | Err _ => false
+  end = true.
+Proof. vm_compute. reflexivity. Qed.
+(* boolean observers of the conclusions on this example: at x = (1, 2, 3), u = (5, 7) the capacitor voltage row gives
+   x_0, the current rows of Lb and La give x_1 and x_2, the current row of M1 gives u_0, the voltage row of Vs u_1 *)
+Definition res_is (r : res Qcops) (v : Qcops) : bool := match r with Ok a => Qc_eq_bool a v | Err _ => false end.
+Example C10_example_outputs :
+  match state_space_matrices Qcops ex_net ex_c ex_l with
+  | Ok m => let x := [q 1 1; q 2 1; q 3 1] in let u := [q 5 1; q 7 1] in
+            res_is (out_voltage Qcops ex_net ex_c ex_l m (lbl "C1") x u) (q 1 1)
+            && res_is (out_current Qcops ex_net ex_c ex_l m (lbl "Lb") x u) (q 2 1)
+            && res_is (out_current Qcops ex_net ex_c ex_l m (lbl "La") x u) (q 3 1)
+            && res_is (out_current Qcops ex_net ex_c ex_l m (lbl "M1") x u) (q 5 1)
+            && res_is (out_voltage Qcops ex_net ex_c ex_l m (lbl "Vs") x u) (q 7 1)
+  | Err _ => false
+  end = true.
+Proof. vm_compute. reflexivity. Qed.
+
+(* the same circuit over the Gaussian rationals at s = j (w = 1 rad/s), u = (5, 7): x := (sI - A)^-1 B u computed with
+   the checked solver; observers: s x = A x + B u holds; the phasor network is solved by the library's solver; the
+   potentials of all nodes and the voltages of all branches obtained from C x + D u coincide with that solution *)
+Definition c (a : Z) (b : positive) : CQ := cq a b 0 1.
+Definition exC_net : network CQ :=
+  {| zero := lbl "0";
+     branches := [ Build_branch (lbl "2") (lbl "3") (impedance (lbl "Lb") (c 0 1));
+                   Build_branch (lbl "1") (lbl "2") (resistor (lbl "R1") (c 2 1));
+                   Build_branch (lbl "0") (lbl "3") (current_source (lbl "M1") (c 1 1) (c 0 1));
+                   Build_branch (lbl "2") (lbl "0") (impedance (lbl "La") (c 0 1));
+                   Build_branch (lbl "3") (lbl "0") (admittance (lbl "C1") (c 0 1));
+                   Build_branch (lbl "3") (lbl "0") (resistor (lbl "R2") (c 5 1));
+                   Build_branch (lbl "1") (lbl "0") (voltage_source (lbl "Vs") (c 1 1) (c 0 1)) ] |}.
+Definition exC_c : list (label * CQ) := [(lbl "C1", c 1 2)].
+Definition exC_l : list (label * CQ) := [(lbl "Lb", c 2 1); (lbl "La", c 3 1)].
+Definition exC_s : CQ := cq 0 1 1 1.
+Definition exC_u : list CQ := [c 5 1; c 7 1].
+Definition sI_minus (s : CQ) (A : list (list CQ)) : list (list CQ) :=
+  mat_sub CQ (map (map (fmul CQ s)) (ident (List.length A))) A.
+Definition res_eqb (a b : res CQ) : bool :=
+  match a, b with Ok p, Ok r => feqb CQ p r | _, _ => false end.
+Example C10_example_hyp_CQ : rlc_dcb exC_net exC_c exC_l = true /\ lam_nzb exC_c exC_l = true.
+Proof. vm_compute. split; reflexivity. Qed.
+Example C10_example_transfer :
+  match state_space_matrices CQ exC_net exC_c exC_l with
+  | Ok m =>
+      match solve (sI_minus exC_s (ss_A m)) (mat_vec (ss_B m) exC_u) with
+      | Some x =>
+          vec_eqb (ss_xdot CQ m x exC_u) (map (fmul CQ exC_s) x)
+          && match solve_network (pnet CQ exC_net exC_c exC_l exC_s exC_u) with
+             | Ok sol =>
+                 forallb (fun nd => res_eqb (out_potential CQ exC_net exC_c exC_l m nd x exC_u) (get_potential sol nd))
+                         (node_labels exC_net)
+                 && forallb (fun b => res_eqb (out_voltage CQ exC_net exC_c exC_l m (bid b) x exC_u) (get_voltage sol (bid b))
+                                      && res_eqb (out_current CQ exC_net exC_c exC_l m (bid b) x exC_u) (get_current sol (bid b)))
+                            (branches exC_net)
+             | Err _ => false
+             end
+      | None => false
+      end
+  | Err _ => false
+  end = true.
+Proof. vm_compute. reflexivity. Qed.
